@@ -49,6 +49,14 @@ def main():
                 meta = json.load(handle)
             run(["git", "checkout", "--", "."], cwd=worktree)
             code, out = run(["git", "apply", os.path.join(directory, "patch.diff")], cwd=worktree)
+            if code != 0:  # context moved by a later fix: commit: try a three-way merge of the hunks
+                run(["git", "checkout", "--", "."], cwd=worktree)
+                code, out = run(["git", "apply", "--3way", os.path.join(directory, "patch.diff")], cwd=worktree)
+                if code == 0:
+                    run(["git", "reset", "-q"], cwd=worktree)
+                else:
+                    run(["git", "checkout", "--", "."], cwd=worktree)
+                    run(["git", "reset", "-q", "--hard"], cwd=worktree)
             if code != 0:
                 meta["reported_now"] = {"tree": head, "applies": False}
                 print(f"{ident}: patch does not apply to {head}")
